@@ -373,3 +373,52 @@ def run_stencils(ctx: Ctx) -> None:
                                     return False, f"mode={mode} dilation={dil} axis={LETTERS[axis]} item {b} sample {i}: {got} expected {want}"
                         return True, ""
                     _guard(ctx, "T5.stencil", f"D={D}:{LETTERS[axis]}:{mode}:d={dil}", fFD, f"D={D} axis={LETTERS[axis]} mode={mode} dilation={dil}", th)
+
+
+def run_flowfields_curl(ctx: Ctx) -> None:
+    """The data-level entry point of the curl: FlowFields.curl / FlowField.curl with the spacing implied by the representation."""
+    from ..tae import STObj
+    prog = ctx.prog
+    FF = prog.cls("deepali.data.flow", "FlowFields")
+    Grid = prog.cls("deepali.core.grid", "Grid")
+    Axes = prog.cls("deepali.core.grid", "Axes")
+    fC = prog.find_method(FF, "curl")
+    ctx.fn(fC)
+    ctx.fn(prog.find_method(prog.cls("deepali.data.flow", "FlowField"), "curl"))
+    ctx.rule("T5.flowfields-curl", "FlowFields.curl() / FlowField.curl() of an affine field u(i) = A i + b given in GRID, CUBE, CUBE_CORNERS or WORLD "
+                                   "units (axis-aligned grid with symbolic spacing) is, at every sample, the analytic curl with respect to the "
+                                   "coordinates of that representation: A21' - A12' (D = 2), (A32' - A23', A13' - A31', A21' - A12') (D = 3), "
+                                   "A'_cj = A_cj / (coordinate step of axis j); the result is an image batch on the flow's grids")
+    for D, shape in ((2, (3, 4)), (3, (3, 3, 4))):
+        for axes in ("GRID", "CUBE", "CUBE_CORNERS", "WORLD"):
+            def th(D=D, shape=shape, axes=axes):
+                reset_relations()
+                facts = fresh_facts()
+                it = make_interp(ctx)
+                size = tuple(reversed(shape))
+                sp = [Rat.atom(f"s{j}") for j in range(D)]
+                for x in sp:
+                    facts.declare_positive(x)
+                g = it.new(Grid, size=size, spacing=STensor.from_flat(sp, [D]))
+                ones = [Rat.of(1)] * D
+                u, coef = poly_field(D, shape, ones, 1, "", N=1)  # u_c(i) = sum_j A_cj i_j + b_c at unit index positions
+                f = it.new(FF, u.clone(), g, it.enum(Axes, axes))
+                r = it.method(f, "curl")
+                step = {"GRID": [Rat.of(1)] * D, "WORLD": sp, "CUBE": [Rat.of(Fraction(2, n)) for n in size],
+                        "CUBE_CORNERS": [Rat.of(Fraction(2, n - 1)) for n in size]}[axes]
+                A = [[coef["A"][c][j] / step[j] for j in range(D)] for c in range(D)]
+                want = [A[1][0] - A[0][1]] if D == 2 else [A[2][1] - A[1][2], A[0][2] - A[2][0], A[1][0] - A[0][1]]
+                if not isinstance(r, STObj) or list(r.shape) != [1, len(want)] + list(shape):
+                    return False, f"curl() returns {type(r).__name__} of shape {tuple(getattr(r, 'shape', ()))}, expected an image batch (1, {len(want)}, ...)"
+                for k, w in enumerate(want):
+                    bad = all_equal(r.plain()[0:1, k:k + 1], w)
+                    if bad:
+                        return False, f"curl component {k} ({axes} units): {bad}"
+                g2 = it.method(r, "grids")
+                if len(g2) != 1 or g2[0] is not g and not teq(it.method(g2[0], "spacing"), it.method(g, "spacing")):
+                    return False, "result does not carry the flow's grid"
+                one = it.method(it.method(f, "__getitem__", 0), "curl")
+                if list(one.shape) != [len(want)] + list(shape) or not teq(one.plain(), r.plain()[0]):
+                    return False, "FlowField.curl() differs from FlowFields.curl()[0]"
+                return True, ""
+            _guard(ctx, "T5.flowfields-curl", f"D={D}:{axes}", fC, f"FlowFields.curl D={D} axes={axes}", th)
